@@ -10,7 +10,6 @@ import (
 	"runtime/debug"
 	"strings"
 
-	art "github.com/Clement-Jean/go-art"
 )
 
 // Oracle flags. A check enables only the oracles of its own property, so that
@@ -158,7 +157,7 @@ func (e *Exec) notePairs(ps []pair) {
 type stepAbort struct{ reason string }
 
 func newExec(tr *Trace, known map[string]bool) *Exec {
-	e := &Exec{tr: tr, prop: tr.Prop, or: propOracles[tr.Prop], st: newRunStats(), known: known, lim: art.VerifMaxPrefixLen}
+	e := &Exec{tr: tr, prop: tr.Prop, or: propOracles[tr.Prop], st: newRunStats(), known: known, lim: hookLim}
 	for _, c := range tr.Trees {
 		ts := &treeState{cfg: c, api: newTree(c.Key, c.Val, c.SpareCodec, c.Codec), m: newModel(c.Key), noID: !valHasID(c.Val)}
 		e.trees = append(e.trees, ts)
@@ -594,7 +593,7 @@ func (e *Exec) treeStep(i int, s *Step) (*Violation, bool) {
 	var digBefore, digNoValBefore []byte
 	var idsBefore []uint64
 	mustNotChange := false
-	if e.or&oDigest != 0 {
+	if e.or&oDigest != 0 && hookWalk {
 		present := false
 		if s.Op == "ins" || s.Op == "del" {
 			_, present = ts.m.Get(s.K)
@@ -683,7 +682,7 @@ func (e *Exec) treeStep(i int, s *Step) (*Violation, bool) {
 			return v, false
 		}
 	}
-	if e.or&oShape != 0 && (heavy || ts.m.Len() <= 300) {
+	if e.or&oShape != 0 && hookWalk && (heavy || ts.m.Len() <= 300) {
 		before := ts.lastHist
 		if v := e.checkShapeStep(i, s, ts, mutated); v != nil {
 			return v, false
@@ -695,7 +694,7 @@ func (e *Exec) treeStep(i int, s *Step) (*Violation, bool) {
 			guard(func() { e.probeTransitions(ts, api.Dump(), s, sizeBefore, false) })
 			ts.lastHist = after
 		}
-	} else if mutated && e.or&oShape == 0 && ts.m.Len() <= 300 {
+	} else if mutated && e.or&oShape == 0 && hookWalk && ts.m.Len() <= 300 {
 		// probes only (never a verdict): which structural transitions the run reached
 		guard(func() { e.probeTransitions(ts, api.Dump(), s, sizeBefore, true) })
 	}
@@ -965,6 +964,61 @@ func (e *Exec) doSeq(i int, s *Step, ts *treeState) *Violation {
 			}
 		}
 	}
+	// C15: read-only calls and no-op updates made from inside the loop body — a
+	// history with such calls interleaved between two deliveries of one pass. Nothing
+	// they do may reach the pass: same pairs, no fault.
+	if e.or&oDigest != 0 && len(full) > 0 && len(full) <= 400 && !(ts.cfg.Shared && e.inRace) {
+		var absent []byte
+		if s.Op == "range" || s.Op == "prefix" {
+			for _, c := range [][]byte{s.K, s.K2} {
+				if len(c) > 0 && absent == nil {
+					if _, present := ts.m.Get(c); !present && !ts.m.nulRelated(c) {
+						absent = c
+					}
+				}
+			}
+		}
+		var got []pair
+		n := 0
+		last := full[len(full)-1]
+		msg := guard(func() {
+			api.Seq(s.Op, s.K, s.K2, kOf(s.N))(func(k []byte, id uint64, vok bool) bool {
+				got = append(got, pair{k, id, vok})
+				switch (n + i) % 6 {
+				case 0:
+					if vok {
+						api.Insert(k, id) // the key just delivered, its own value again
+					}
+				case 1:
+					api.Search(k)
+				case 2:
+					if absent != nil {
+						api.Delete(absent)
+					} else {
+						api.Size()
+					}
+				case 3:
+					api.Min()
+					api.Max()
+				case 4:
+					if last.vok {
+						api.Insert(last.k, last.id) // a key the pass has not reached yet
+					}
+				case 5:
+					api.Search(last.k)
+				}
+				n++
+				return true
+			})
+		})
+		e.st.Probes["noop_calls_inside_iteration"] += n
+		if msg != "" {
+			return e.viol("panic", "C15-noop-inside-iteration", i, "tree %d (%s): %s(%x,%x): a pass whose loop body makes read-only calls and re-inserts present keys with their own values did not return normally after %d element(s): %s", s.T, ts.cfg.Key, s.Op, []byte(s.K), []byte(s.K2), len(got), msg)
+		}
+		if !pairsEqual(got, full) {
+			return e.viol("wrong-result", "C15-noop-inside-iteration", i, "tree %d (%s): %s(%x,%x): a pass whose loop body makes read-only calls and re-inserts present keys with their own values yielded %d element(s) %s; the undisturbed pass yielded %d %s", s.T, ts.cfg.Key, s.Op, []byte(s.K), []byte(s.K2), len(got), fmtPairs(got, 5), len(full), fmtPairs(full, 5))
+		}
+	}
 	return nil
 }
 
@@ -1196,7 +1250,7 @@ func (e *Exec) checkShapeStep(i int, s *Step, ts *treeState, mutated bool) *Viol
 	return v
 }
 
-func (e *Exec) noteShape(ts *treeState, c *shapeChk, d *art.VerifNode) {
+func (e *Exec) noteShape(ts *treeState, c *shapeChk, d *VNode) {
 	if len(e.st.Shapes) < 4096 {
 		e.st.Shapes = append(e.st.Shapes, c.shapeH)
 		e.st.States = append(e.st.States, mix2(c.shapeH, c.classH))
@@ -1231,7 +1285,7 @@ func (e *Exec) histTransitions(ts *treeState, h [4]int) {
 }
 
 // probeTransitions: evidence only.
-func (e *Exec) probeTransitions(ts *treeState, d *art.VerifNode, s *Step, sizeBefore int, withHist bool) {
+func (e *Exec) probeTransitions(ts *treeState, d *VNode, s *Step, sizeBefore int, withHist bool) {
 	var h [4]int
 	classHist(d, &h)
 	innerBefore := ts.lastHist[0] + ts.lastHist[1] + ts.lastHist[2] + ts.lastHist[3]
@@ -1386,7 +1440,7 @@ func observe(ts *treeState, probes [][]byte, withDigest bool) (o observation, ms
 			o.found = append(o.found, f)
 			o.ids = append(o.ids, id)
 		}
-		if withDigest {
+		if withDigest && hookWalk {
 			o.dig = digestOf(api.Dump(), api.ValID, true)
 		}
 	})
